@@ -337,8 +337,8 @@ func typesOf(n *GNode, mode Mode) (map[string]bool, []int) {
 
 // Analysis is the reference verdict and annotation of a graph.
 type Analysis struct {
-	WellFounded bool
-	Reasons     []string // clauses violated: a, b, c, d, e (with details)
+	WellFounded   bool
+	Reasons       []string // clauses violated: a, b, c, d, e (with details)
 	HasTupleCycle bool
 }
 
